@@ -30,6 +30,21 @@ class Wire:
         self.write_marks = []            # (cumulative bytes written, global seq) per write  -> routed order
         self.deliver_marks = []          # (cumulative bytes delivered, global seq) per pump -> arrival order
         writer.on_write = self._on_write
+        # asyncio's default write-buffer limits: the transport pauses the protocol above HIGH and resumes it at LOW
+        self.paused = False
+        writer.flow = self._flow
+
+    HIGH, LOW = 64 * 1024, 16 * 1024
+
+    def _flow(self):
+        n = len(self.pending)
+        if self.eof_sent:
+            self.paused = False
+        elif n > self.HIGH:
+            self.paused = True
+        elif n <= self.LOW:
+            self.paused = False
+        return self.paused
 
     def _tick(self):
         if self.clock is None:
